@@ -247,6 +247,19 @@ def gen_random_stable(rng, n):
     return gen_stable(rng, n)
 
 
+def gen_rowcontraction(rng, n):
+    """dyadic A with ||A||inf < 1: every absolute row sum at most cap < 1"""
+    den = rng.choice([8, 16, 32])
+    cap = rng.choice([den - 1, den - 1, den // 2, den // 4])
+    A = []
+    for _ in range(n):
+        budget = rng.randint(max(1, cap // 2), cap)
+        cuts = sorted(rng.randint(0, budget) for _ in range(n - 1))
+        parts = [b - a for a, b in zip([0] + cuts, cuts + [budget])]
+        A.append([F(rng.choice([-1, 1]) * v, den) for v in parts])
+    return A
+
+
 def gen_sym_psd(rng, n, rk=None, den=2):
     rk = n if rk is None else rk
     C = [[dy(rng, -3, 3, den) for _ in range(n)] for _ in range(rk)]
@@ -450,9 +463,62 @@ def cmp_mat(Xm, Xc, env, what):
     return None
 
 
-def mk_lyap_cmp(ctx, tag, psd=False, nil_n=0):
+def least_K(rho, beta, tol):
+    """least K with beta/(1-rho^2) * (rho^(2^K))^2 <= tol (theorem lyap_terminates), by repeated squaring"""
+    C = beta / (1 - rho * rho)
+    x, K = rho, 0          # x = rho^(2^K)
+    while C * x * x > tol:
+        x, K = x * x, K + 1
+        if K > 60:
+            return None
+    return K
+
+
+def weighted_domain(A, B, tol):
+    """certificate for theorem lyap_terminates_weighted: positive w, rho < 1 with |A| w <= rho w (exact), beta with
+    |B_pq| <= beta w_p w_q, and the least K with beta/(1-rho^2) (rho^(2^K))^2 w_p w_q <= tol for all p, q.
+    w is a truncated Neumann series sum_j |A|^j 1, rounded up to multiples of 1/64."""
+    n = len(A)
+    absA = [[abs(x) for x in r] for r in A]
+    w = [F(1)] * n
+    acc = [F(1)] * n
+    for _ in range(60):
+        acc = [sum(absA[p][c] * acc[c] for c in range(n)) for p in range(n)]
+        w = [a + b for a, b in zip(w, acc)]
+        if max(acc) < F(1, 1000):
+            break
+    else:
+        return None
+    w = [F(math.ceil(x * 64), 64) for x in w]
+    rho = max(sum(absA[p][c] * w[c] for c in range(n)) / w[p] for p in range(n))
+    if not rho < 1:
+        return None
+    beta = max(abs(B[p][q]) / (w[p] * w[q]) for p in range(n) for q in range(n))
+    wmax = max(w)
+    C = beta / (1 - rho * rho) * wmax * wmax
+    x, K = rho, 0
+    while C * x * x > tol:
+        x, K = x * x, K + 1
+        if K > 60:
+            return None
+    return K, rho
+
+
+def mk_lyap_cmp(ctx, tag, psd=False, nil_n=0, tcK=None, weighted=False):
     def cmp(mo, impl):
         ki = kvs(impl)
+        if tcK is not None and tag == "lyap":
+            # instance check of lyap_terminates / lyap_total_correct on the model's exact run:
+            # ||A||inf < 1  =>  normal return with n_its <= K + 2;  PSD B  =>  exact residual <= tol
+            kmm = kvs(mo)
+            ctx.count("lyap:weighted-domain:model-checked" if weighted else "lyap:rownorm<1:model-checked")
+            if not mo.startswith("ok") or int(kmm["its"]) > tcK + 2:
+                return "row-sum domain (weighted=%s) but the model did not return within K+2=%d counted iterations" % (
+                    weighted, tcK + 2)
+            if psd and not weighted:      # residual <= tol is proved only for ||A||inf <= 1
+                ctx.count("lyap:total-correct:psd-instances")
+                if parse_rat(kmm["res"]) > F(LYAP_TOL):
+                    return "||A||inf < 1, PSD B: exact residual of the model's X exceeds tol" 
         if nil_n and tag == "lyap":
             # instance check of lyap_nilpotent_stops / lyap_nilpotent_exact on the model's exact run and on the
             # code's count: A^(2^k) = 0 with 2^k >= n, so n_its <= k + 2 and the exact residual is 0
@@ -570,7 +636,7 @@ def run(ctx):
     cases = []
     ctx.rule = ("Lyapunov: n<=4; A Schur stable by construction (T D T^-1, T unimodular, D block triangular with "
                 "dyadic eigen-blocks) or random dyadic certified by the exact Schur-Cohn test; B symmetric PSD, general, "
-                "zero; scalars; nilpotent A; |eig|=1 (permutation/identity) for the max_it exit. Riccati: k<=5, n<=4; R=LDL' "
+                "zero; A with max abs row sum < 1 (domain of the total-correctness theorem: model and code must return within K+2 counted iterations, K the least with C*(rho^(2^K))^2<=tol); scalars; nilpotent A; |eig|=1 (permutation/identity) for the max_it exit. Riccati: k<=5, n<=4; R=LDL' "
                 "PD dyadic; N zero or dyadic; Q = C'C + N'R^-1N with rank(C)<=k (singular Q); A stable / unstable and "
                 "(A-BR^-1N,B) controllable / block-stabilisable with a uncontrollable stable block; detectability certified "
                 "exactly (observability rank test or stable A-BR^-1N); domain restricted to reference closed-loop radius "
@@ -598,23 +664,58 @@ def run(ctx):
         ctx.count("lyap:n=%d" % n)
         replay = {"fn": "solve_discrete_lyapunov", "A": An.tolist(), "B": Bn.tolist(), "max_it": max_it,
                   "method": "doubling"}
+        rho = ninf(A)
+        tcK = None
+        if rho < 1:
+            ctx.count("lyap:rownorm<1")
+            tcK = least_K(rho, maxabs(B), F(LYAP_TOL))
+            if tcK is not None and tcK + 2 > max_it:
+                tcK = None      # the theorem needs max_it >= K + 2
+            if tcK is not None:
+                ctx.count("lyap:rownorm<1:K=%02d" % tcK)
+        wK = None
+        if not rho < 1 and spec and max_it == 50:
+            wd = weighted_domain(A, B, F(LYAP_TOL))
+            if wd is not None and wd[0] + 2 <= max_it:
+                wK = wd[0]
+                ctx.count("lyap:weighted-domain")
+            else:
+                ctx.count("lyap:outside-rowsum-domains")
         st, X = call_lyap(me, Aa, Ba, max_it=max_it)
         if st == "ok":
             its = lyap_its(me, Aa, Ba, max_it)
             impl = "ok its=%d X=%s" % (its, fxm(X.tolist()))
             ctx.count("lyap:its=%02d" % its)
+            if wK is not None:
+                if its <= wK + 2:
+                    ctx.count("lyap:weighted-domain:code-within-K+2")
+                elif its > wK + 3:
+                    ctx.spec_fail("lyap_termination_bound_weighted", "|A|w<=rho w, rho<1: code made n_its=%d > K+3=%d"
+                                  % (its, wK + 3), replay)
+            if tcK is not None:
+                # the code (doubles): the exact-arithmetic bound, +1 for a rounding-marginal stopping test
+                if its <= tcK + 2:
+                    ctx.count("lyap:rownorm<1:code-within-K+2")
+                    if its == tcK + 2:
+                        ctx.count("lyap:rownorm<1:bound-attained")
+                elif its > tcK + 3:
+                    ctx.spec_fail("lyap_termination_bound", "||A||inf=%s<1: code made n_its=%d > K+3=%d" % (
+                        rho, its, tcK + 3), replay)
             if spec:
                 lyap_spec(ctx, "lyap_doubling", A, B, X, replay)
         else:
             m = [int(t) for t in X.replace(",", " ").split() if t.isdigit()]
             impl = "ERR:ValueError its=%d" % (m[0] if m else -1)
             ctx.count("lyap:ValueError")
+            if tcK is not None:
+                ctx.spec_fail("lyap_termination_bound", "||A||inf=%s<1, max_it=%d >= K+2=%d but the code raised" % (
+                    rho, max_it, tcK + 2), replay)
             if spec:
                 ctx.spec_fail("lyap_doubling_raise", "ValueError for a Schur-stable A within max_it=%d" % max_it, replay)
         nt = n >= 2 and st == "ok" and its >= 3
         tolr = "x%016x" % int.from_bytes(np.float64(LYAP_TOL).tobytes(), "little")
         cases.append(Case("C06 lyap A=%s B=%s tol=%s maxit=%d" % (ratm_line(A), ratm_line(B), tolr, max_it), impl,
-                          nontrivial=nt, cmp=mk_lyap_cmp(ctx, "lyap", psd=psd, nil_n=(n if kind == "nilpotent" else 0)), tag="lyap"))
+                          nontrivial=nt, cmp=mk_lyap_cmp(ctx, "lyap", psd=psd, nil_n=(n if kind == "nilpotent" else 0), tcK=(tcK if tcK is not None else wK), weighted=(tcK is None and wK is not None)), tag="lyap"))
         cases.append(Case("C06 lyapf A=%s B=%s tol=%s maxit=%d" % (fxm(An.tolist()), fxm(Bn.tolist()), tolr, max_it), impl,
                           nontrivial=nt, cmp=mk_lyap_cmp(ctx, "lyapf"), tag="lyapf"))
         if st == "ok" and spec:
@@ -635,8 +736,10 @@ def run(ctx):
     nL = ctx.n(120, 1500)
     for t in range(nL):
         n = 1 + (t % 4)
-        kind = rng.choice(["schur", "schur", "random", "schur-slow"])
-        if kind == "schur":
+        kind = rng.choice(["schur", "schur", "random", "schur-slow", "rownorm<1", "rownorm<1"])
+        if kind == "rownorm<1":
+            A = gen_rowcontraction(rng, n)
+        elif kind == "schur":
             A = gen_stable(rng, n)
         elif kind == "schur-slow":
             A = gen_stable(rng, n, rho_den=32, rho_max=31)
